@@ -3,15 +3,96 @@
    documented parameters, for all ids, id lists, option lists, queries and bases. *)
 From Coq Require Import ZArith List String Ascii Bool Lia.
 From Verif Require Import C20.Syntax C20.Text C20.Types C20.Model C20.SpecApi
-  C20.ProofsText C20.ProofsFloat C20.ProofsUrl.
+  C20.ProofsText C20.ProofsFloat C20.ProofsTime C20.ProofsUrl.
 Import ListNotations.
 Open Scope Z_scope.
 Open Scope list_scope.
 
 (* ---------- hypotheses, as boolean predicates ---------- *)
 
-(* the configured base has no '?' (it is a scheme://host[/prefix]) *)
-Definition base_ok (cfg : str) : bool := nochar "?" cfg.
+(* the configured base is well formed (SpecApi.base_wf): in particular it has no '?', no '#',
+   and is a URL the client does not refuse *)
+Definition base_ok (cfg : str) : bool := base_wf cfg.
+
+Lemma wf_char_facts a : wf_char a = true ->
+  is_ctl a = false /\ Ascii.eqb a " " = false /\ Ascii.eqb a "?" = false /\ Ascii.eqb a "#" = false.
+Proof. all_ascii a; vm_compute; intros H; try discriminate H; repeat split. Qed.
+
+Lemma wf_forall_nochar c s :
+  (forall a, wf_char a = true -> Ascii.eqb a c = false) -> forallb wf_char s = true -> nochar c s = true.
+Proof.
+  intros Hc. induction s as [|a s IH]; intros H; [reflexivity|].
+  cbn in H. apply andb_true_iff in H as [Ha Hs].
+  rewrite nochar_cons, (Hc a Ha), (IH Hs). reflexivity.
+Qed.
+
+Lemma base_wf_chars cfg : base_wf cfg = true -> cfg = [] \/ forallb wf_char cfg = true.
+Proof.
+  unfold base_wf. destruct cfg as [|a cfg]; [left; reflexivity|].
+  destruct (http_rest (a :: cfg)) as [[|h r]|]; try discriminate.
+  intros H. apply andb_true_iff in H as [H _]. apply andb_true_iff in H as [_ H]. right; exact H.
+Qed.
+
+Lemma base_wf_noq cfg : base_wf cfg = true -> nochar "?" cfg = true.
+Proof.
+  intros H. destruct (base_wf_chars cfg H) as [->|Hc]; [reflexivity|].
+  apply (wf_forall_nochar "?"); [|exact Hc]. intros a Ha. apply (wf_char_facts a Ha).
+Qed.
+
+Lemma base_wf_nohash cfg : base_wf cfg = true -> nochar "#" cfg = true.
+Proof.
+  intros H. destruct (base_wf_chars cfg H) as [->|Hc]; [reflexivity|].
+  apply (wf_forall_nochar "#"); [|exact Hc]. intros a Ha. apply (wf_char_facts a Ha).
+Qed.
+
+Lemma strip_prefix_suffix p : forall u r, strip_prefix p u = Some r -> exists q, u = q ++ r.
+Proof.
+  induction p as [|a p IH]; intros u r H.
+  - cbn in H. injection H as <-. exists []. reflexivity.
+  - destruct u as [|b u]; [discriminate|]. cbn in H.
+    destruct (Ascii.eqb a b); [|discriminate].
+    destruct (IH u r H) as [q ->]. exists (b :: q). reflexivity.
+Qed.
+
+Lemma cut_at_split c : forall s x y, cut_at c s = Some (x, y) -> s = x ++ c :: y.
+Proof.
+  induction s as [|a s IH]; intros x y H; [discriminate|].
+  cbn in H. destruct (Ascii.eqb a c) eqn:E.
+  - injection H as <- <-. apply Ascii.eqb_eq in E. subst a. reflexivity.
+  - destruct (cut_at c s) as [[x' y']|]; [|discriminate]. injection H as <- <-.
+    rewrite (IH x' y' eq_refl). reflexivity.
+Qed.
+
+Lemma forallb_existsb_false {A} (P Q : A -> bool) l :
+  (forall a, P a = true -> Q a = false) -> forallb P l = true -> existsb Q l = false.
+Proof.
+  intros H. induction l as [|a l IH]; intros Hl; [reflexivity|].
+  cbn in Hl. apply andb_true_iff in Hl as [Ha Hl]. cbn. rewrite (H a Ha), (IH Hl). reflexivity.
+Qed.
+
+(* a well-formed base is one the client does not refuse *)
+Lemma base_wf_not_refused cfg : base_wf cfg = true -> url_refused (base_url cfg) = false.
+Proof.
+  intros H. destruct cfg as [|a cfg]; [vm_compute; reflexivity|].
+  change (base_url (a :: cfg)) with (a :: cfg).
+  unfold base_wf in H. unfold url_refused.
+  destruct (http_rest (a :: cfg)) as [[|h r]|] eqn:Er; try discriminate.
+  apply andb_true_iff in H as [H Hp]. apply andb_true_iff in H as [_ Hc].
+  apply negb_true_iff in Hp. rewrite Hp.
+  rewrite (forallb_existsb_false wf_char is_ctl _ (fun x Hx => proj1 (wf_char_facts x Hx)) Hc).
+  cbn [orb].
+  assert (Hr : forallb wf_char (h :: r) = true).
+  { unfold http_rest in Er.
+    destruct (strip_prefix (lit "http://") (a :: cfg)) as [r1|] eqn:E1.
+    - injection Er as Er. subst r1. destruct (strip_prefix_suffix _ _ _ E1) as [q Hq].
+      rewrite Hq, forallb_app in Hc. apply andb_true_iff in Hc as [_ Hc]. exact Hc.
+    - destruct (strip_prefix_suffix _ _ _ Er) as [q Hq].
+      rewrite Hq, forallb_app in Hc. apply andb_true_iff in Hc as [_ Hc]. exact Hc. }
+  destruct (cut_at "/" (h :: r)) as [[x y]|] eqn:Ec.
+  - rewrite (cut_at_split _ _ _ _ Ec), forallb_app in Hr. apply andb_true_iff in Hr as [Hx _].
+    apply (forallb_existsb_false wf_char _ _ (fun z Hz => proj1 (proj2 (wf_char_facts z Hz))) Hx).
+  - apply (forallb_existsb_false wf_char _ _ (fun z Hz => proj1 (proj2 (wf_char_facts z Hz))) Hr).
+Qed.
 
 Definition bounds_all (P : fl -> bool) (b : bounds) : bool :=
   P (MinLon b) && P (MinLat b) && P (MaxLon b) && P (MaxLat b).
@@ -76,19 +157,25 @@ Proof.
   - exists v'. split; [|exact Hq]. apply decode_pair_kv; assumption.
 Qed.
 
-Lemma at_piece_ok strict o : piece_ok strict (at_piece o) (at_param o).
+Lemma at_piece_ok strict o : fopt_in_range o = true -> piece_ok strict (at_piece o) (at_param o).
 Proof.
-  destruct o as [t]. cbn [at_piece at_param].
+  destruct o as [t]. cbn [at_piece at_param fopt_in_range]. intros Ht.
   apply (kv_piece strict (lit "at") (iso8601 t) (iso8601 t)).
   - reflexivity.
   - discriminate.
   - apply clean_no_amp, clean_iso.
   - apply clean_unescape, clean_iso.
-  - cbn. apply str_eqb_refl.
+  - (* the specification reads the text back with its own calendar *)
+    cbn [qval_ok]. exact (time_text_ok_of_model t Ht).
 Qed.
 
-Lemma at_pieces_ok strict o : Forall2 (piece_ok strict) (map at_piece o) (map at_param o).
-Proof. induction o; constructor; [apply at_piece_ok|assumption]. Qed.
+Lemma at_pieces_ok strict o :
+  forallb fopt_in_range o = true -> Forall2 (piece_ok strict) (map at_piece o) (map at_param o).
+Proof.
+  induction o as [|a o IH]; intros H; [constructor|].
+  cbn in H. apply andb_true_iff in H as [Ha Ho].
+  constructor; [apply at_piece_ok; exact Ha|apply IH; exact Ho].
+Qed.
 
 Lemma note_piece_ok strict o : piece_ok strict (note_piece o) (note_param o).
 Proof.
@@ -201,22 +288,22 @@ Lemma base_path_noq cfg ep :
   base_ok cfg = true -> nochar "?" (base_url cfg ++ spec_path ep) = true.
 Proof.
   intros Hb. rewrite nochar_app, (clean_no_q _ (clean_spec_path ep)), andb_true_r.
-  destruct cfg; [reflexivity|exact Hb].
+  destruct cfg; [reflexivity|exact (base_wf_noq _ Hb)].
 Qed.
 
 (* ---------- the query of every call ---------- *)
 
 Lemma explicit_query_ok strict ep :
-  args_finite ep = true ->
+  args_finite ep = true -> times_in_range ep = true ->
   match explicit_query ep with
   | None => spec_query ep = []
   | Some q => exists kvs, decode_query q = Some kvs /\ query_ok strict (spec_query ep) kvs = true
   end.
 Proof.
-  intros Hf.
+  intros Hf Ht.
   destruct ep as [e id o|e ids o|e id v|e id|id o|e id o|e id o|b o|id|id|id|id|b os|q os|id];
-    cbn [explicit_query spec_query]; try reflexivity.
-  - apply decode_join, at_pieces_ok.
+    cbn [explicit_query spec_query times_in_range] in *; try reflexivity.
+  - apply decode_join, at_pieces_ok; exact Ht.
   - destruct o as [|a o].
     + rewrite app_nil_r.
       apply (decode_join strict [plural e ++ lit "=" ++ idlist ids] [(plural e, QText (idlist ids))]).
@@ -224,11 +311,11 @@ Proof.
     + replace (plural e ++ lit "=" ++ idlist ids ++ amp ++ fstring (a :: o))
         with ((plural e ++ lit "=" ++ idlist ids) ++ amp ++ join amp (map at_piece (a :: o)))
         by (unfold fstring; rewrite <- !app_assoc; reflexivity).
-      apply decode_cons_join; [apply ids_piece_ok|apply at_pieces_ok].
-  - apply decode_join, at_pieces_ok.
-  - apply decode_join, at_pieces_ok.
-  - apply decode_join, at_pieces_ok.
-  - apply decode_cons_join; [apply bbox_piece_ok; assumption|apply at_pieces_ok].
+      apply decode_cons_join; [apply ids_piece_ok|apply at_pieces_ok; exact Ht].
+  - apply decode_join, at_pieces_ok; exact Ht.
+  - apply decode_join, at_pieces_ok; exact Ht.
+  - apply decode_join, at_pieces_ok; exact Ht.
+  - apply decode_cons_join; [apply bbox_piece_ok; assumption|apply at_pieces_ok; exact Ht].
   - apply (decode_join strict [lit "include_discussion=true"]
              [(lit "include_discussion", QText (lit "true"))]).
     constructor; [|constructor].
@@ -242,11 +329,11 @@ Proof.
 Qed.
 
 Lemma std_url_ok strict cfg ep :
-  base_ok cfg = true -> args_finite ep = true ->
+  base_ok cfg = true -> args_finite ep = true -> times_in_range ep = true ->
   request_ok_at strict cfg ep (explicit_url_std cfg ep) = true.
 Proof.
-  intros Hb Hf. unfold request_ok_at, explicit_url_std.
-  pose proof (explicit_query_ok strict ep Hf) as Hq.
+  intros Hb Hf Ht. unfold request_ok_at, explicit_url_std.
+  pose proof (explicit_query_ok strict ep Hf Ht) as Hq.
   destruct (explicit_query ep) as [q|].
   - rewrite app_assoc, (split_target_query _ _ (base_path_noq cfg ep Hb)).
     rewrite base_url_spec, str_eqb_refl. cbn [andb].
@@ -285,10 +372,10 @@ Proof.
 Qed.
 
 Lemma explicit_url_ok strict cfg ep :
-  base_ok cfg = true -> options_valid ep = true -> args_finite ep = true ->
+  base_ok cfg = true -> options_valid ep = true -> args_finite ep = true -> times_in_range ep = true ->
   request_ok_at strict cfg ep (explicit_url cfg ep) = true.
 Proof.
-  intros Hb Hv Hf. unfold explicit_url.
+  intros Hb Hv Hf Ht. unfold explicit_url.
   destruct (url_of_shape cfg ep Hv) as [H|[Hn H]]; rewrite H.
   - apply std_url_ok; assumption.
   - apply alt_url_ok; assumption.
@@ -296,10 +383,10 @@ Qed.
 
 (* url_matches_spec: for every call, all ids, id lists, option lists, queries and bases *)
 Lemma url_matches_spec_at strict cfg ep :
-  base_ok cfg = true -> options_valid ep = true -> args_finite ep = true ->
+  base_ok cfg = true -> options_valid ep = true -> args_finite ep = true -> times_in_range ep = true ->
   exists u, url_of cfg ep = Ok u /\ request_ok_at strict cfg ep u = true.
 Proof.
-  intros Hb Hv Hf. exists (explicit_url cfg ep). split.
+  intros Hb Hv Hf Ht. exists (explicit_url cfg ep). split.
   - apply url_of_explicit, Hv.
   - apply explicit_url_ok; assumption.
 Qed.
